@@ -214,7 +214,7 @@ def _enumerate(ctx: core.Ctx, shard: int, nshards: int, tier: str) -> None:
             for form in ("var", "lit"):
                 idx += 1
                 if idx % nshards == shard:
-                    ctx.run({"kind": "truth", "a": a, "ctx": c, "form": form})
+                    ctx.run({"kind": "truth", "a": a, "ctx": c, "form": form}, enumerated=True)
     for ai, a in enumerate(V):
         for bi, b in enumerate(V):
             for oi, op in enumerate(OPS):
@@ -228,11 +228,11 @@ def _enumerate(ctx: core.Ctx, shard: int, nshards: int, tier: str) -> None:
                             continue
                         idx += 1
                         if idx % nshards == shard:
-                            ctx.run({"kind": "cmp", "a": a, "b": b, "op": op, "ctx": c, "form": form})
+                            ctx.run({"kind": "cmp", "a": a, "b": b, "op": op, "ctx": c, "form": form}, enumerated=True)
     for toks in _flat_sequences(4 if quick else 5):
         idx += 1
         if idx % nshards == shard:
-            ctx.run({"kind": "tree", "tokens": toks, "ctx": ["if", "unless", "elsif", "ternary"][idx % 4]})
+            ctx.run({"kind": "tree", "tokens": toks, "ctx": ["if", "unless", "elsif", "ternary"][idx % 4]}, enumerated=True)
 
 
 def campaign(ctx: core.Ctx, tier: str, shard: int, nshards: int) -> None:
